@@ -191,4 +191,10 @@ CLAIMED["C10"] = {
     "design_ref": "DESIGN.md §4 C10, §10", "note": _ST_NOTE,
     "technique": "Lean 4 proof on the specification + point-wise correspondence",
 }
-NOT_YET = {}
+NOT_YET = {
+    "C11": "not claimed: the check was not built in the time available. The technique applies (DESIGN.md §4 C11: word-level model of the MSB-flagged FITS v2 rows with a split-on-alternation "
+           "theorem, token model of the 't... s...' ASCII syntax reusing Model/Codec.lean, correspondence on real bytes); nothing about C11 is asserted by this deliverable. A confirmed seeded change "
+           "for it is kept under seeded/C11. See DESIGN.md §10.6.",
+    "C19": "not claimed: the check was not built in the time available. The technique applies (DESIGN.md §4 C19: dispatch-table model composed from the C01/C05/C07 models, correspondence driving the "
+           "rebuilt `moc` binary the way C14-C16 drive `mocset`); nothing about C19 is asserted by this deliverable. See DESIGN.md §10.6.",
+}
